@@ -80,6 +80,38 @@ func show(t Tok) string {
 	}
 }
 
+// DiffTokAll returns every leaf difference between two projections (path, both values), at most max of them;
+// lists of different length report `#len` and the differences of their common prefix.
+func DiffTokAll(a, b Tok, max int) [][3]string {
+	var out [][3]string
+	var walk func(a, b Tok, path []string)
+	walk = func(a, b Tok, path []string) {
+		if len(out) >= max {
+			return
+		}
+		if a.Kind == 'l' && b.Kind == 'l' {
+			for i := 0; i < len(a.L) && i < len(b.L); i++ {
+				lab := label(path, i)
+				if lab[0] >= '0' && lab[0] <= '9' {
+					if n := nameOf(a.L[i]); n != "" {
+						lab = fmt.Sprintf("%s[%s]", lab, n)
+					}
+				}
+				walk(a.L[i], b.L[i], append(append([]string{}, path...), lab))
+			}
+			if len(a.L) != len(b.L) && len(out) < max {
+				out = append(out, [3]string{strings.Join(append(append([]string{}, path...), "#len"), "/"), fmt.Sprint(len(a.L)), fmt.Sprint(len(b.L))})
+			}
+			return
+		}
+		if a.String() != b.String() {
+			out = append(out, [3]string{strings.Join(path, "/"), show(a), show(b)})
+		}
+	}
+	walk(a, b, nil)
+	return out
+}
+
 var idxRe = regexp.MustCompile(`\[[^\]]*\]|/\d+|^\d+`)
 
 // DiffSignature turns a difference path into a classifier: indices and entity names dropped.
